@@ -5,7 +5,9 @@ package sim
 import (
 	"bytes"
 	"context"
+	"errors"
 	"fmt"
+	"strings"
 	"sync"
 	"time"
 
@@ -41,7 +43,8 @@ type rdOp struct {
 	High  bool
 	Len   uint8
 	Order packet.ByteOrder
-	Field []modbus.Field // ExtractFields
+	Field []modbus.Field         // ExtractFields
+	Breq  *modbus.BuilderRequest // non-nil: the extraction goes through this builder-made request (Fields replaced by Field)
 }
 
 func (o rdOp) String() string {
@@ -67,7 +70,13 @@ func genRdOp(t *Tape, kind int, start, qty int, server string, unit byte) rdOp {
 			if int(f.Address) < start {
 				f.Address = uint16(start)
 			}
+			if i > 0 && t.Chance(1, 4) {
+				f.Address = o.Field[len(o.Field)-1].Address // several definitions over one register (bits of a status word)
+			}
 			o.Field = append(o.Field, f)
+			if t.Chance(1, 8) {
+				o.Field = append(o.Field, o.Field[t.Choose(len(o.Field))]) // the same definition listed twice
+			}
 			if t.Chance(1, 6) {
 				// a coil field in the list of a register request: not extractable from registers, and no reason to disturb the others
 				o.Field = append(o.Field, modbus.Field{Name: fmt.Sprintf("coil%d", i), ServerAddress: server, UnitID: unit, Type: modbus.FieldTypeCoil, Address: uint16(start + t.Choose(qty))})
@@ -78,7 +87,15 @@ func genRdOp(t *Tape, kind int, start, qty int, server string, unit byte) rdOp {
 }
 
 // applyRdOp performs the read on regs (a view of resp) and renders the outcome as a comparable string.
-func applyRdOp(regs *packet.Registers, resp packet.Response, start int, o rdOp) string {
+func renderFieldValues(vals []modbus.FieldValue, e error) string {
+	s := ""
+	for _, fv := range vals {
+		s += fmt.Sprintf("[%s=%#v err=%v]", fv.Field.Name, fv.Value, fv.Error != nil)
+	}
+	return fmt.Sprintf("%s err=%v", s, e != nil)
+}
+
+func applyRdOp(regs *packet.Registers, resp packet.Response, start int, o rdOp, held *[]modbus.FieldValue) string {
 	a := uint16(start + o.Off)
 	var v any
 	var err error
@@ -139,12 +156,15 @@ func applyRdOp(regs *packet.Registers, resp packet.Response, start int, o rdOp) 
 		v, err = regs.QuadRegister(a, o.Order)
 	case 23, 24:
 		br := modbus.BuilderRequest{StartAddress: uint16(start), Fields: o.Field}
-		vals, e := br.ExtractFields(resp, o.Kind == 24)
-		s := ""
-		for _, fv := range vals {
-			s += fmt.Sprintf("[%s=%#v err=%v]", fv.Field.Name, fv.Value, fv.Error != nil)
+		if o.Breq != nil {
+			br = *o.Breq // the request value as the builder made it (and whatever it carries besides the public fields)
+			br.StartAddress, br.Fields = uint16(start), o.Field
 		}
-		return fmt.Sprintf("%s err=%v", s, e != nil)
+		vals, e := br.ExtractFields(resp, o.Kind == 24)
+		if held != nil {
+			*held = vals
+		}
+		return renderFieldValues(vals, e)
 	}
 	return fmt.Sprintf("%#v err=%v", v, err != nil)
 }
@@ -198,6 +218,53 @@ func runC13(rc *RunCtx) {
 			}
 		}
 	}
+	// In a third of the runs the extraction ops go through one request value made by the request builder, its field
+	// list permuted from op to op: whatever such a request carries along must not connect one extraction with another.
+	if t.Chance(1, 3) {
+		var bf modbus.Fields
+		for i := 0; i < 2+t.Choose(5); i++ {
+			f := genRegField(t, start+t.Choose(qty), i)
+			f.ServerAddress, f.UnitID = server, unit
+			if int(f.Address) < start || int(f.Address)+refFieldRegs(f) > start+qty {
+				continue
+			}
+			bf = append(bf, f)
+		}
+		if len(bf) >= 2 {
+			b := modbus.NewRequestBuilder(server, unit).AddAll(bf)
+			var reqs []modbus.BuilderRequest
+			var err error
+			switch {
+			case fc == 3 && fr == TCP:
+				reqs, err = b.ReadHoldingRegistersTCP()
+			case fc == 3:
+				reqs, err = b.ReadHoldingRegistersRTU()
+			case fr == TCP:
+				reqs, err = b.ReadInputRegistersTCP()
+			default:
+				reqs, err = b.ReadInputRegistersRTU()
+			}
+			if err == nil && len(reqs) == 1 {
+				breq := reqs[0]
+				for r := range readers {
+					for i := range readers[r] {
+						if o := &readers[r][i]; o.Kind >= 23 {
+							fs := append([]modbus.Field(nil), breq.Fields...)
+							rot := t.Choose(len(fs))
+							fs = append(fs[rot:], fs[:rot]...)
+							if t.Choose(2) == 1 {
+								for a, z := 0, len(fs)-1; a < z; a, z = a+1, z-1 {
+									fs[a], fs[z] = fs[z], fs[a]
+								}
+							}
+							o.Field, o.Breq = fs, &breq
+						}
+					}
+				}
+				rc.Probe("extraction_through_builder_made_request")
+			}
+		}
+	}
 	sharedView := t.Choose(2) == 0 // readers share one *Registers, or each makes its own view of the shared response
 	sigBase := fmt.Sprintf("fc%d|%s", fc, fr)
 	rc.Desc = map[string]any{"framing": fr.String(), "function": fc, "start": start, "quantity": qty, "readers": nreaders, "shared_registers_view": sharedView, "ops_reader0": fmt.Sprint(readers[0])}
@@ -226,6 +293,8 @@ func runC13(rc *RunCtx) {
 		op          rdOp
 		got         string
 		changed     string // payload differed from the snapshot right after this call
+		held        []modbus.FieldValue
+		heldErr     bool
 	}
 	var mu sync.Mutex
 	var observed []obs
@@ -281,7 +350,8 @@ func runC13(rc *RunCtx) {
 				if tk.Yield("before-read") == Drained {
 					return
 				}
-				got := applyRdOp(view, resp, start, o)
+				var heldVals []modbus.FieldValue
+				got := applyRdOp(view, resp, start, o, &heldVals)
 				if rc.Race {
 					continue // no functional oracle (and no shared harness state) in race mode
 				}
@@ -290,7 +360,7 @@ func runC13(rc *RunCtx) {
 					ch = fmt.Sprintf("%x", trunc(now, 40))
 				}
 				mu.Lock()
-				observed = append(observed, obs{r, i, o, got, ch})
+				observed = append(observed, obs{r, i, o, got, ch, heldVals, strings.HasSuffix(got, "err=true")})
 				mu.Unlock()
 			}
 		})
@@ -328,7 +398,7 @@ func runC13(rc *RunCtx) {
 			return
 		}
 		fregs, _ := fresh.(regsResponse).AsRegisters(uint16(start))
-		want := applyRdOp(fregs, fresh, start, ob.op)
+		want := applyRdOp(fregs, fresh, start, ob.op, nil)
 		if ob.op.Kind >= 23 {
 			// a field's value must not depend on which other fields are extracted with it, nor on their order:
 			// expected = every field extracted alone, each from its own private copy
@@ -350,6 +420,14 @@ func runC13(rc *RunCtx) {
 			}
 			want = fmt.Sprintf("%s err=%v", want, anyErr)
 		}
+		if ob.op.Kind >= 23 {
+			// what is compared is which (definition, value, failed) triples were reported: the order in which a list comes
+			// back and whether a definition listed twice is reported twice are not what this property is about; that identical
+			// calls return identical results is checked on the exact rendering below
+			if sameTokenSet(ob.got, want) {
+				want = ob.got
+			}
+		}
 		if ob.got != want {
 			rc.Violate("result_depends_on_history", fmt.Sprintf("%s|op=%s", sigBase, name),
 				"reader %d call #%d %v returned %s; on a fresh private copy of the same response it returns %s", ob.reader, ob.idx, ob.op, trunc([]byte(ob.got), 120), trunc([]byte(want), 120))
@@ -362,4 +440,46 @@ func runC13(rc *RunCtx) {
 		}
 		seen[key] = ob.got
 	}
+	// results handed out earlier still say what they said when they were returned
+	for _, ob := range observed {
+		if ob.op.Kind >= 23 && ob.held != nil {
+			var e error
+			if ob.heldErr {
+				e = errors.New("failed")
+			}
+			if now := renderFieldValues(ob.held, e); now != ob.got {
+				rc.Violate("earlier_result_changed", fmt.Sprintf("%s|op=%s", sigBase, c13OpNames[ob.op.Kind]),
+					"the values returned by reader %d call #%d %v read %s when returned and %s after later extractions", ob.reader, ob.idx, ob.op, trunc([]byte(ob.got), 120), trunc([]byte(now), 120))
+				return
+			}
+		}
+	}
+}
+
+// sameTokenSet: two renderings of field-value lists report the same set of [name=value err] triples and the same overall error flag.
+func sameTokenSet(a, b string) bool {
+	split := func(s string) (map[string]bool, string) {
+		i := strings.LastIndex(s, " err=")
+		if i < 0 {
+			return nil, s
+		}
+		m := map[string]bool{}
+		for _, tok := range strings.SplitAfter(s[:i], "]") {
+			if tok != "" {
+				m[tok] = true
+			}
+		}
+		return m, s[i:]
+	}
+	ma, ea := split(a)
+	mb, eb := split(b)
+	if ea != eb || len(ma) != len(mb) {
+		return false
+	}
+	for k := range ma {
+		if !mb[k] {
+			return false
+		}
+	}
+	return true
 }
